@@ -240,7 +240,7 @@ def project(hstate, mode, nparams):
   """-> dict(count, stats=[...], precs=[...], errs=[...], metrics=[bytes...]) per statistic,
   flattened in parameter order (p0, p1, ...)."""
   names = [f"p{i}" for i in range(nparams)]
-  stats, precs, errs, mets, owner = [], [], [], [], []
+  stats, precs, errs, mets, owner, retries = [], [], [], [], [], []
   if mode == "shard":
     gs = hstate.stats.global_stats
     for pi, n in enumerate(names):
@@ -253,9 +253,10 @@ def project(hstate, mode, nparams):
         tm = ls.training_metrics
         if hasattr(tm, "inverse_pth_root_errors"):
           errs.append(float(np.asarray(tm.inverse_pth_root_errors)[j]))
+          retries.append(float(np.asarray(tm.total_retries)[j]))
           mets.append(b"".join(np.asarray(x)[j].tobytes() for x in jax.tree.leaves(tm)))
         else:
-          errs.append(None); mets.append(b"")
+          errs.append(None); mets.append(b""); retries.append(None)
         owner.append(pi)
     nrows = int(np.asarray(gs.statistics).shape[0])
     extra = {"global_rows": nrows,
@@ -271,12 +272,13 @@ def project(hstate, mode, nparams):
         tm = st.training_metrics
         if hasattr(tm, "inverse_pth_root_errors"):
           errs.append(float(np.asarray(tm.inverse_pth_root_errors)[j]))
+          retries.append(float(np.asarray(tm.total_retries)[j]))
           mets.append(b"".join(np.asarray(x)[j].tobytes() for x in jax.tree.leaves(tm)))
         else:
-          errs.append(None); mets.append(b"")
+          errs.append(None); mets.append(b""); retries.append(None)
         owner.append(pi)
   return {"count": int(np.asarray(hstate.count)), "stats": stats, "precs": precs,
-          "errs": errs, "mets": mets, "owner": owner, **extra}
+          "errs": errs, "mets": mets, "owner": owner, "retries": retries, **extra}
 
 
 def err_class(err, thr):
